@@ -696,6 +696,26 @@ def parameters_search(rounds=1500, seed=0):
                 return {"class": kind, "read_only": ro, "attempts": hist, "failure": "value %r after attempt, expected %r" % (p.value, cur)}
             if p.default_value is not default and p.default_value != default:
                 return {"class": kind, "attempts": hist, "failure": "default value changed"}
+        # a constructor that raises leaves the parent map unchanged (no half-built child registered)
+        if r % 5 == 0:
+            from pydsol.core.parameters import InputParameterQuantity as _IPQ
+            from pydsol.core.units import Length as _L
+            pm = InputParameterMap("pm", "pm", 1.0)
+            mk("int", "keep", False, parent=pm)
+            bad_ctors = [lambda: InputParameterInt("k", "k", "abc", 1.0, parent=pm), lambda: InputParameterInt("k", "k", 50, 1.0, parent=pm, min_value=0, max_value=10),
+                         lambda: InputParameterFloat("k", "k", 5.0, 1.0, parent=pm, min_value=10.0, max_value=20.0), lambda: InputParameterStr("k", "k", 3, 1.0, parent=pm),
+                         lambda: InputParameterBool("k", "k", "x", 1.0, parent=pm), lambda: InputParameterSelectionList("k", "k", ["a"], "z", 1.0, parent=pm),
+                         lambda: _IPQ("k", "k", _L(500.0), 1.0, parent=pm, min_si=1.0, max_si=100.0), lambda: InputParameterInt("keep", "dup", 3, 1.0, parent=pm)]
+            bc = rng.choice(bad_ctors)
+            before = list(pm.value.items())
+            try:
+                bc()
+                return {"failure": "a constructor with an invalid default value / duplicate key was accepted"}
+            except (TypeError, ValueError):
+                pass
+            if list(pm.value.items()) != before:
+                return {"failure": "a constructor that raised left the parent map changed: keys %s (before: %s)"
+                                   % (list(pm.value.keys()), [k for k, _ in before])}
         # quantity parameters: bounds are on the SI value, whatever unit the value is entered in
         if r % 4 == 0:
             from pydsol.core.parameters import InputParameterQuantity
